@@ -146,6 +146,11 @@ pub trait ExpressionReducer {
 
     fn visit_assignment(&mut self, a: Assignment) -> Result<Assignment, LintErrorPos> {
         let (name, v) = a.into();
+        // the target may contain expressions too (the subscripts of an array element)
+        let name = match name {
+            Expression::ArrayElement(_, _, _) => self.visit_expression(name)?,
+            _ => name,
+        };
         Ok(Assignment::new(name, self.visit_expression_pos(v)?))
     }
 
